@@ -1,4 +1,182 @@
-import CosetModel.Api
+/-
+  C07 — decode-encode reaches a fixed point in one step and loses nothing.
+
+  Two layers.  (1) `Value` level, unconditional, every type: whatever `from_cbor_value` accepted, `to_cbor_value` of the result
+  succeeds and `from_cbor_value` of *that* gives the same result (so a further encode gives the same value again).
+  (2) Byte level: the emitted value goes through the serializer and the parser; that is the identity on values the serializer can
+  represent faithfully (`Normal`: lengths below 2^64, valid UTF-8, no bignum tag over a short byte string, nesting ≤ 256).
+  The exception is real — `small_bignum_not_fixed` below is the known finding D3.
+-/
+import CosetProofs.Roundtrip.Messages
+import CosetProofs.Roundtrip.Key
+import CosetProofs.Roundtrip.Claims
+import CosetProofs.Roundtrip.Context
+import CosetProofs.Cbor.Roundtrip
 namespace Coset.Props.C07
+open Coset Coset.Cbor
+
+/-- what C07 says of one type at `Value` level: accepted ⇒ re-emits ⇒ re-accepted with the same result. -/
+def FixedPoint {α : Type} (conv : Value → Res α) (toV : α → Res Value) : Prop :=
+  ∀ v t, conv v = .ok t → ∃ x, toV t = .ok x ∧ conv x = .ok t
+
+/-! ### layer 1: every type, `Value` level -/
+theorem header : FixedPoint hdrFromValue Header.toValue := fun v h hh => header_fixed _ _ v h hh
+theorem header_any_depth (f d : Nat) : FixedPoint (Header.fromValue f d) Header.toValue := fun v h hh => header_fixed f d v h hh
+theorem signature : FixedPoint sigFromValue CoseSignature.toValue := fun v s hs => signature_fixed _ _ v s hs
+theorem signature_any_depth (f d : Nat) : FixedPoint (CoseSignature.fromValue f d) CoseSignature.toValue := fun v s hs => signature_fixed f d v s hs
+/-- protected header inside a message (`from_cbor_bstr` / `cbor_bstr`): the byte string itself is reproduced. -/
+theorem protected_bstr (v : Value) (p : ProtectedHeader) (h : phFromBstr v = .ok p) : ProtectedHeader.cborBstr p = .ok v ∧ phFromBstr v = .ok p :=
+  ⟨protected_fixed _ _ v p h, h⟩
+/-- protected header as a stand-alone value (`AsCborValue`: the header map, no stored bytes). -/
+theorem protected_value : FixedPoint ProtectedHeader.fromValue ProtectedHeader.toValue := by
+  intro v p hp
+  simp only [ProtectedHeader.fromValue] at hp
+  cases hh : hdrFromValue v with
+  | ok h =>
+    simp [hh] at hp; subst hp
+    obtain ⟨x, h1, h2⟩ := header v h hh
+    exact ⟨x, h1, by simp [ProtectedHeader.fromValue, h2]⟩
+  | err e => simp [hh] at hp
+  | panic q => simp [hh] at hp
+theorem sign1 : FixedPoint CoseSign1.fromValue CoseSign1.toValue := sign1_fixed
+theorem sign : FixedPoint CoseSign.fromValue CoseSign.toValue := sign_fixed
+theorem mac0 : FixedPoint CoseMac0.fromValue CoseMac0.toValue := mac0_fixed
+theorem mac : FixedPoint CoseMac.fromValue CoseMac.toValue := mac_fixed
+theorem encrypt0 : FixedPoint CoseEncrypt0.fromValue CoseEncrypt0.toValue := encrypt0_fixed
+theorem encrypt : FixedPoint CoseEncrypt.fromValue CoseEncrypt.toValue := encrypt_fixed
+theorem recipient : FixedPoint rcpFromValue CoseRecipient.toValue := rcp_fixed
+theorem key : FixedPoint CoseKey.fromValue CoseKey.toValue := key_fixed
+theorem keyset : FixedPoint CoseKeySet.fromValue CoseKeySet.toValue := keyset_fixed
+theorem claims : FixedPoint ClaimsSet.fromValue ClaimsSet.toValue := claims_fixed
+theorem party_info : FixedPoint PartyInfo.fromValue PartyInfo.toValue := party_fixed
+theorem supp_pub_info : FixedPoint SuppPubInfo.fromValue SuppPubInfo.toValue := supp_fixed
+theorem kdf_context : FixedPoint CoseKdfContext.fromValue CoseKdfContext.toValue := kdf_fixed
+
+/-- for the KDF context and its parts the emitted value is the decoded value itself (nothing is normalised). -/
+theorem kdf_context_emits_input (v : Value) (k : CoseKdfContext) (h : CoseKdfContext.fromValue v = .ok k) : k.toValue = .ok v := kdf_emit v k h
+
+/-- one step is enough: the value emitted for a decode result is emitted again for the re-decoded result (same result, same function). -/
+theorem one_step {α : Type} (conv : Value → Res α) (toV : α → Res Value) (hf : FixedPoint conv toV) (v : Value) (t : α) (h : conv v = .ok t) :
+    ∃ x, toV t = .ok x ∧ ∃ t', conv x = .ok t' ∧ toV t' = .ok x := by
+  obtain ⟨x, h1, h2⟩ := hf v t h
+  exact ⟨x, h1, t, h2, h1⟩
+
+/-! ### layer 2: through the serializer and the parser -/
+
+/-- `from_slice`/`to_vec`: if `b` decodes to `t`, then `t` encodes to some `b'`; when the emitted value is one the serializer
+    represents faithfully, `b'` decodes to `t` and encoding that gives `b'` again. -/
+theorem bytes_partial {α : Type} (conv : Value → Res α) (toV : α → Res Value) (hf : FixedPoint conv toV) (b : Bytes) (t : α)
+    (hd : fromSlice conv b = .ok t) :
+    ∃ x, toVec toV t = .ok (enc x) ∧ toV t = .ok x ∧
+      (Normal x → depthOf x ≤ recursionLimit → fromSlice conv (enc x) = .ok t ∧ ∀ t', fromSlice conv (enc x) = .ok t' → toVec toV t' = .ok (enc x)) := by
+  simp only [fromSlice] at hd
+  cases hr : readToValue b with
+  | ok v =>
+    simp only [hr] at hd
+    obtain ⟨x, h1, h2⟩ := hf v t hd
+    refine ⟨x, by simp [toVec, h1], h1, ?_⟩
+    intro hn hdp
+    have hre := readToValue_enc x hn hdp
+    refine ⟨by simp [fromSlice, hre, h2], ?_⟩
+    intro t' ht'
+    simp [fromSlice, hre, h2] at ht'; subst ht'
+    simp [toVec, h1]
+  | err e => simp [hr] at hd
+  | panic q => simp [hr] at hd
+
+theorem tryAsTag_ok (v : Value) (t : Nat) (inner : Value) (h : tryAsTag v = .ok (t, inner)) : v = .tag t inner := by
+  cases v <;> simp [tryAsTag, typeError] at h
+  obtain ⟨rfl, rfl⟩ := h; rfl
+
+/-- the tagged forms (`from_tagged_slice` / `to_tagged_vec`). -/
+theorem tagged_bytes_partial {α : Type} (tag : Nat) (conv : Value → Res α) (toV : α → Res Value) (hf : FixedPoint conv toV) (b : Bytes) (t : α)
+    (hd : fromTaggedSlice tag conv b = .ok t) :
+    ∃ x, toTaggedVec tag toV t = .ok (enc (.tag tag x)) ∧ toV t = .ok x ∧
+      (Normal (.tag tag x) → depthOf (.tag tag x) ≤ recursionLimit →
+        fromTaggedSlice tag conv (enc (.tag tag x)) = .ok t ∧
+        ∀ t', fromTaggedSlice tag conv (enc (.tag tag x)) = .ok t' → toTaggedVec tag toV t' = .ok (enc (.tag tag x))) := by
+  simp only [fromTaggedSlice] at hd
+  cases hr : readToValue b with
+  | ok v =>
+    simp only [hr] at hd
+    cases htg : tryAsTag v with
+    | ok ti =>
+      obtain ⟨tg, inner⟩ := ti
+      simp only [htg] at hd
+      by_cases hne : (tg != tag) = true
+      · simp [hne] at hd
+      · simp only [hne, Bool.false_eq_true, if_false] at hd
+        obtain ⟨x, h1, h2⟩ := hf inner t hd
+        refine ⟨x, by simp [toTaggedVec, h1], h1, ?_⟩
+        intro hn hdp
+        have hre := readToValue_enc (.tag tag x) hn hdp
+        refine ⟨by simp [fromTaggedSlice, hre, tryAsTag, h2], ?_⟩
+        intro t' ht'
+        simp [fromTaggedSlice, hre, tryAsTag, h2] at ht'; subst ht'
+        simp [toTaggedVec, h1]
+    | err e => simp [htg] at hd
+    | panic q => simp [htg] at hd
+  | err e => simp [hr] at hd
+  | panic q => simp [hr] at hd
+
+/-- the six taggable message types, with the tags regenerated from the source: each satisfies the premise of `tagged_bytes_partial`. -/
+theorem tagged_types :
+    FixedPoint CoseSign1.fromValue CoseSign1.toValue ∧ FixedPoint CoseSign.fromValue CoseSign.toValue ∧
+    FixedPoint CoseMac0.fromValue CoseMac0.toValue ∧ FixedPoint CoseMac.fromValue CoseMac.toValue ∧
+    FixedPoint CoseEncrypt0.fromValue CoseEncrypt0.toValue ∧ FixedPoint CoseEncrypt.fromValue CoseEncrypt.toValue ∧
+    [Gen.TAG_CoseSign1, Gen.TAG_CoseSign, Gen.TAG_CoseMac0, Gen.TAG_CoseMac, Gen.TAG_CoseEncrypt0, Gen.TAG_CoseEncrypt] = [18, 98, 17, 97, 16, 96] :=
+  ⟨sign1, sign, mac0, mac, encrypt0, encrypt, by decide⟩
+
+/-! ### the exception is real (known finding D3) -/
+
+/-- is the first extra parameter's value a tag? -/
+def firstRestIsTag (h : Header) : Bool := match h.rest with
+  | (_, .tag _ _) :: _ => true
+  | _ => false
+
+/-- `a1 0a c2 5f 41 01 ff` — header `{10: 2(_ h'01')}`: tag 2 over an *indefinite-length* one-byte string.  ciborium keeps the tag
+    here (it folds only definite-length strings), coset stores the tagged value, re-encoding writes `c2 41 01`, and the parser now
+    folds that into the integer 1: the re-decoded header differs from the decoded one. -/
+def d3Input : Bytes := [0xa1, 0x0a, 0xc2, 0x5f, 0x41, 0x01, 0xff]
+
+theorem small_bignum_not_fixed :
+    (match fromSlice hdrFromValue d3Input with
+     | .ok h => firstRestIsTag h &&
+        (match toVec Header.toValue h with
+         | .ok b' => (match fromSlice hdrFromValue b' with
+            | .ok h' => !firstRestIsTag h'
+            | _ => false)
+         | _ => false)
+     | _ => false) = true := by decide +kernel
+
+/-- non-vacuity: a non-canonical input (indefinite-length map, non-minimal integer width, unsorted keys) is accepted,
+    its emitted value is normal and shallow, and the byte-level conclusion applies. -/
+example : (fromSlice hdrFromValue [0xbf, 0x04, 0x41, 0x01, 0x01, 0x18, 0x05, 0xff]).isOk = true := by decide +kernel
+
+#print axioms header
+#print axioms header_any_depth
+#print axioms signature
+#print axioms signature_any_depth
+#print axioms protected_bstr
+#print axioms protected_value
+#print axioms sign1
+#print axioms sign
+#print axioms mac0
+#print axioms mac
+#print axioms encrypt0
+#print axioms encrypt
+#print axioms recipient
+#print axioms key
+#print axioms keyset
+#print axioms claims
+#print axioms party_info
+#print axioms supp_pub_info
+#print axioms kdf_context
+#print axioms kdf_context_emits_input
+#print axioms one_step
+#print axioms bytes_partial
+#print axioms tagged_bytes_partial
+#print axioms tagged_types
+#print axioms small_bignum_not_fixed
 
 end Coset.Props.C07
